@@ -1142,3 +1142,17 @@ Proof.
   unfold make_subjects. destruct (o_makehtml o), (o_makeintersphinx o);
     (split; [intros H; try discriminate; eexists; split; reflexivity|split; intros H1 H2; try discriminate; reflexivity]).
 Qed.
+
+(* ================================================================== through the docstring linker *)
+(* every entry of a written inventory that has been loaded resolves, from every object of every system (whatever its
+   root names -- also when they share the top-level package of the entry), to the page and anchor it is documented at *)
+Lemma linker_resolves_entries roots subjects base e (root_names : list text) (obj_full : text) :
+  NoDup (map e_name (entries roots subjects)) -> In e (entries roots subjects) ->
+  look_for_intersphinx (map (link_of base) (entries roots subjects)) root_names obj_full (e_name e)
+  = Some (base ++ [47] ++ e_url e).
+Proof. unfold look_for_intersphinx. apply roundtrip_get_link. Qed.
+
+(* and every usable line of any loaded payload resolves through the linker like through getLink *)
+Lemma linker_is_getlink links (root_names : list text) (obj_full name : text) :
+  look_for_intersphinx links root_names obj_full name = get_link links name.
+Proof. reflexivity. Qed.
